@@ -69,6 +69,7 @@ var pollStats struct {
 	phases, polls int
 	maxWait       time.Duration
 	mismatches    int
+	notQuiescent  int
 }
 
 func currentSettleLimit() time.Duration {
@@ -273,8 +274,23 @@ func runScenarioT(sc scenario) ([]phaseRec, string, timing) {
 		if len(outs) > 0 {
 			rec.resolved = outs[0].path
 		}
+		stateReached := false
+		for _, out := range outs {
+			if obsOfM(out.st).eq(last) {
+				rec.resolved = out.path
+				stateReached = true
+			}
+		}
 		if !lastCensus.allParked {
-			note = "goroutine still busy at the time limit: " + firstLines(lastCensus.busy, 6)
+			note = "goroutine not parked at the time limit: " + firstLines(lastCensus.busy, 8)
+		}
+		if stateReached {
+			// the observation is one the model allows, but quiescence could not be established (a goroutine that is not
+			// parked in a wait the census recognises, or something still on its way): the scenario must not count as
+			// agreement.  A label that is never enabled makes the replay fail, so the driver goes to its search.
+			note = "state reached but quiescence not established within the time limit; " + note
+			rec.resolved = append(append([]label{}, rec.resolved...), label{kind: aSendStep, i: 9999})
+			pollStats.notQuiescent++
 		}
 		recs = append(recs, rec)
 		break
@@ -429,10 +445,13 @@ func decodeReplay(s string) (scenario, error) {
 func main() {
 	vh.Main("c16", func(e *vh.Env) {
 		timingDropped, timingRetries := 0, 0
+		generated, emitted := 0, 0
 		emit := func(sc scenario) {
+			generated++
 			if sc.pace == 0 {
 				recs, note := runScenario(sc)
 				e.Emit(caseOf(sc, recs, note))
+				emitted++
 				return
 			}
 			// slow-drain: the case counts only when its own timing was what the scenario is about - the peer never away
@@ -449,11 +468,13 @@ func main() {
 						"longest_interval_between_peer_reads_ms": tm.maxGap.Milliseconds(), "latest_watchdog_tick_ms": tm.watchdog.Milliseconds(),
 						"pace_ms": sc.pace.Milliseconds(), "bound_ms": limit.Milliseconds()}
 					e.Emit(c)
+					emitted++
 					return
 				}
 				pollStats.mismatches = before // whatever happened in a run without established timing does not count
 				if attempt >= 3 {
 					timingDropped++
+					generated-- // dropped for timing, not for disagreement
 					return
 				}
 				timingRetries++
@@ -487,6 +508,16 @@ func main() {
 			}
 		}
 		e.Meta["scenarios_where_model_and_implementation_differ"] = pollStats.mismatches
+		e.Meta["scenarios_where_quiescence_was_not_established"] = pollStats.notQuiescent
+		e.Meta["scenarios_generated"] = generated
+		// a run that stopped early, or emitted far fewer cases than it generated scenarios, is not evidence of anything:
+		// it ends with a case that fails the replay (never with a quiet OK over a handful of cases)
+		if _, stopped := e.Meta["stopped_early"]; stopped || emitted*2 < generated {
+			why := fmt.Sprintf("the harness emitted %d cases for %d generated scenarios (stopped early: %v; %d scenarios without agreement, %d of them without established quiescence)",
+				emitted, generated, stopped, pollStats.mismatches, pollStats.notQuiescent)
+			e.Emit(vh.Case{Coq: "mkCase 0%Z [mkPh false [] [On 9999 SendStep] (0%Z, [])]", Class: "harness-degenerate", Nontrivial: false,
+				Desc: map[string]interface{}{"class": "harness-degenerate", "why": why}})
+		}
 		e.Meta["slow_drain_timing_not_established"] = timingDropped
 		e.Meta["slow_drain_retries"] = timingRetries
 		e.Meta["phases"] = pollStats.phases
